@@ -5,7 +5,6 @@ package c03
 import (
 	"fmt"
 	"sort"
-	"strings"
 	"testing"
 
 	cluster "github.com/envoyproxy/go-control-plane/envoy/config/cluster/v3"
@@ -102,10 +101,6 @@ func (in *interner) resources(t *testing.T, rs model.Resources) []rsrc {
 	return out
 }
 
-// BuildDeltaClusters remembers ONE watched cluster per (service, port); when a port is removed only that
-// one is deleted and a sibling (plain vs subset cluster of the same port) stays
-const findPortRemoval = "C03-delta-cds-port-removal-keeps-sibling-cluster"
-
 func genHDelta(t *testing.T, c *vlib.Collector, r *vlib.Rand, id int) int {
 	n := vlib.Scale(24, 240)
 	for k := 0; k < n; k++ {
@@ -125,7 +120,7 @@ func genHDelta(t *testing.T, c *vlib.Collector, r *vlib.Rand, id int) int {
 			}
 		}
 		if witness {
-			// minimal reproducer of the finding: two ports, one subset, then the second port goes away
+			// regression of /repo fix 9e904ce: two ports, one subset, then the second port goes away
 			prev = hdWorld{svcs: map[int]int{4: 1}, drs: map[int]int{4: 1}}
 		}
 		var svcs []*model.Service
@@ -146,7 +141,6 @@ func genHDelta(t *testing.T, c *vlib.Collector, r *vlib.Rand, id int) int {
 		tags := []string{"hdelta"}
 		changes := 1 + cs.Intn(2)
 		onlySvc, onlyDR := cs.Chance(40), cs.Chance(30)
-		portRemoved := map[int]bool{}
 		if witness {
 			changes, onlySvc, onlyDR = 1, true, false
 		}
@@ -166,7 +160,6 @@ func genHDelta(t *testing.T, c *vlib.Collector, r *vlib.Rand, id int) int {
 					cg.MemRegistry.AddService(hdService(i, 1-v))
 					tags = append(tags, "svc-updated")
 					if v == 1 {
-						portRemoved[i] = true
 						tags = append(tags, "svc-port-removed")
 					}
 				} else {
@@ -216,42 +209,12 @@ func genHDelta(t *testing.T, c *vlib.Collector, r *vlib.Rand, id int) int {
 		for _, x := range removed {
 			rem = append(rem, in.name(x))
 		}
-		// the known finding: the only stale clusters are clusters of a removed port 9090
-		if used {
-			fullNames, remNames := sets.New[string](), sets.New(removed...)
-			for _, x := range full {
-				fullNames.Insert(x.Name)
-			}
-			stale, other := 0, 0
-			for _, x := range prevRes {
-				if fullNames.Contains(x.Name) || remNames.Contains(x.Name) {
-					continue
-				}
-				isFinding := false
-				for i := range portRemoved {
-					if strings.HasPrefix(x.Name, "outbound|9090|") && strings.HasSuffix(x.Name, fmt.Sprintf("|h%d.example.com", i)) {
-						isFinding = true
-					}
-				}
-				if isFinding {
-					stale++
-				} else {
-					other++
-				}
-			}
-			if stale > 0 && other == 0 {
-				c.FindingOf[id] = findPortRemoval
-				tags = append(tags, "finding-port-removal")
-			}
-		}
 		if witness {
-			tags = append(tags, "witness-port-removal")
+			tags = append(tags, "regression-port-removal")
 		}
 		if used {
 			tags = append(tags, "usedDelta")
-			if c.FindingOf[id] == "" {
-				c.Hyp("H_delta: (BuildClusters before - removed) + updated = BuildClusters after, for BuildDeltaClusters answering delta-aware", 1)
-			}
+			c.Hyp("H_delta: (BuildClusters before - removed) + updated = BuildClusters after, for BuildDeltaClusters answering delta-aware", 1)
 		} else {
 			tags = append(tags, "fallback-full")
 		}
